@@ -75,7 +75,7 @@ class ChannelEngine(Engine):
     name = 'channel_rt'
     max_ops = 8
     expected_probes = ['reorder_atoms', 'reorder_velocities', 'noise_header_line', 'noise_row_comment', 'noise_title',
-                       'loss_natoms', 'loss_bounds', 'loss_atoms_section', 'loss_atoms_section_velocities_kept', 'stream_source', 'short_read_source', 'path_source',
+                       'loss_natoms', 'loss_bounds', 'loss_atoms_section', 'loss_atoms_section_velocities_kept', 'loss_velocity_rows', 'stream_source', 'short_read_source', 'path_source',
                        'imageflags_written', 'tilted_cell', 'nonperiodic_dims', 'gapped_types', 'random_epoch',
                        'compared_cells_above_resolution', 'chained_transfer', 'poscar_cartesian', 'poscar_box_scale',
                        'dump_scaled_columns', 'writer_prop_info_used', 'dest_path', 'dest_stream', 'table_with_id', 'io_error_load_raised', 'dump_two_position_forms', 'integer_typed_float_property', 'same_path_rewritten', 'system_with_own_atom_ids', 'poscar_rotated_cell', 'stream_positioned_past_an_earlier_frame', 'dump_explicit_no_conversion_for_a_standard_property', 'integer_beyond_2_53_carried', 'refused_dump_raised', 'refused_load_before_the_next']
@@ -199,7 +199,7 @@ class ChannelEngine(Engine):
         if r.random() < 0.3:
             plan['tail_noise'] = [r.choice(['', '# end', '   '])]
         if r.random() < 0.15:
-            plan['loss'] = r.choice(['natoms', 'xlo', 'ylo', 'zlo', 'atoms_section', 'atoms_only'])
+            plan['loss'] = r.choice(['natoms', 'xlo', 'ylo', 'zlo', 'atoms_section', 'atoms_only', 'velocity_rows', 'velocity_rows'])
         plan['tail_blank'] = r.choice([0, 0, 1, 3])
         return plan
 
@@ -387,20 +387,31 @@ class ChannelEngine(Engine):
         return res, None
 
     def _refused_dump(self, ctx, system, style, f, kw):
+        self._nref = getattr(ctx, 'nref', 0) + 1
+        ctx.nref = self._nref               # per run
         bad = dict(kw)
         bad.pop('return_prop_info', None)
         if style == 'poscar':
             bad['symbols'] = ['Al'] * (system.natypes + 2)              # as many symbols as types are needed
         elif style == 'atom_data':
             bad['units'] = 'no_such_units'
-        elif style == 'atom_dump':
+        elif style == 'atom_dump' and self._nref % 2:
             bad['lammps_units'] = 'no_such_units'
+        elif self._nref % 2 or style == 'atom_dump':
+            bad['float_format'] = '%.8f %.8f %.8f'                      # three conversions for one number: pandas refuses it
         else:
             bad.pop('prop_info', None)
             bad['prop_name'] = ['atype', 'pos']
             bad['unit'] = [None]                                        # one unit for two properties
-        # (a copy of the system: writers called with safecopy=False may wrap the system they are given, refused or not)
-        ok, res = ctx.sut(copy.deepcopy(system).dump, style, f=f, **bad)
+        # (a copy of the system: writers called with safecopy=False may wrap the system they are given, refused or not;
+        # with safecopy=True the caller's own system is used - it is documented to come back untouched)
+        target = system if (style == 'atom_data' and bad.get('safecopy') is True) else copy.deepcopy(system)
+        if 'float_format' in bad and bad['float_format'] == '%.8f %.8f %.8f':
+            # pandas opens its target before it formats anything: what a failed to_csv leaves in a file is pandas' business and
+            # not promised by anybody, so this refusal is asked for as a returned string; the NEXT dump must work as ever
+            ok, res = ctx.sut(target.dump, style, **bad)
+        else:
+            ok, res = ctx.sut(target.dump, style, f=f, **bad)
         ctx.fault('refused_dump')
         if not ok:
             ctx.probe('refused_dump_raised')
@@ -608,6 +619,14 @@ class ChannelEngine(Engine):
         ctx.sig(*sig)
         if fired or op['src'] != 'text':
             ctx.changes += 2
+        if loss == 'velocity_rows' and 'loss_velocity_rows' not in fired:
+            loss = None                     # the file had no Velocities section to cut
+        if loss == 'velocity_rows':
+            # the file stops right after the Velocities header: the velocities the header announces are not there
+            if ok and 'velocity' not in got.atoms.view:
+                raise Violation('C08.L7', {'what': 'a data file cut right after its Velocities header was loaded as a system without velocities',
+                                           'natoms': got.natoms}, klass='loss-accepted/' + loss)
+            return None
         if loss:
             if ok:
                 raise Violation('C08.L7', {'what': 'data file lacking a required section was loaded', 'lost': loss, 'natoms': got.natoms},
